@@ -19,7 +19,7 @@
 
    Repairs already applied to the modelled code (fixes/C14-*.diff): Conditioned and ByParty do not
    forward an omitted seat count (n_seats=None) positionally. *)
-From Coq Require Import ZArith List Bool.
+From Coq Require Import ZArith QArith List Bool.
 Import ListNotations.
 Open Scope Z_scope.
 
@@ -34,7 +34,8 @@ Inductive val :=
 | VInt (z : Z)
 | VKey (k : key)
 | VList (l : list val)
-| VDict (d : list (key * val)).
+| VDict (d : list (key * val))
+| VRat (q : Q).                      (* a Fraction that is not a whole number (reduced); whole numbers are VInt *)
 
 Inductive exn :=
 | Exn (code : Z)
@@ -52,6 +53,7 @@ Notation "m >>= f" := (rbind m f) (at level 50, left associativity).
 
 Definition E_TYPE := 9.  Definition E_VALUE := 6.  Definition E_KEY := 8.  Definition E_INDEX := 7.
 Definition E_STOP := 13. Definition E_ATTR := 15.  Definition E_UNMODELLED := 98.
+Definition E_VSE := 1.   Definition E_NIE := 2.    Definition E_FUEL := 99.
 Definition raise {X} (c : Z) : res X := Err (Exn c).
 
 Fixpoint pos_list_eqb (a b : list positive) : bool :=
@@ -103,18 +105,43 @@ Definition truthy (v : val) : bool :=
   | VNone => false | VInt z => negb (z =? 0) | VKey _ => true
   | VList l => match l with [] => false | _ => true end
   | VDict d => match d with [] => false | _ => true end
+  | VRat q => negb (Qeq_bool q 0)
   end.
 Definition is_zero (v : val) : bool := match v with VInt 0 => true | _ => false end.
 Definition is_none (v : val) : bool := match v with VNone => true | _ => false end.
 
 (* ------------------------------------------------------------------ parts shared by both semantics *)
 (* a + b as the wrappers use it (seat and vote counts; list concatenation exists in Python too) *)
+(* numbers: int, or Fraction (exact); a Fraction result that is whole is the same number as the int *)
+Definition to_q (v : val) : option Q :=
+  match v with VInt z => Some (inject_Z z) | VRat q => Some q | _ => None end.
+Definition of_q (q : Q) : val :=
+  let r := Qred q in match Qden r with 1%positive => VInt (Qnum r) | _ => VRat r end.
+Definition num2 (f : Q -> Q -> Q) (a b : val) : res val :=
+  match to_q a, to_q b with Some x, Some y => Ok (of_q (f x y)) | _, _ => raise E_TYPE end.
+
 Definition add_val (a b : val) : res val :=
   match a, b with
   | VInt x, VInt y => Ok (VInt (x + y))
   | VList x, VList y => Ok (VList (x ++ y))
+  | VRat _, VInt _ | VInt _, VRat _ | VRat _, VRat _ => num2 Qplus a b
   | _, _ => raise E_TYPE
   end.
+(* a - b, a * b, a < b on numbers (UnusedVotesDistributor, the seat count adjusters) *)
+Definition sub_val (a b : val) : res val :=
+  match a, b with VInt x, VInt y => Ok (VInt (x - y)) | _, _ => num2 Qminus a b end.
+Definition mul_val (a b : val) : res val :=
+  match a, b with VInt x, VInt y => Ok (VInt (x * y)) | _, _ => num2 Qmult a b end.
+Definition lt_val (a b : val) : res bool :=
+  match a, b with
+  | VInt x, VInt y => Ok (x <? y)
+  | _, _ => match to_q a, to_q b with
+            | Some x, Some y => Ok (negb (Qle_bool y x))
+            | _, _ => raise E_TYPE
+            end
+  end.
+(* max(a, b): b if b > a else a *)
+Definition max_val (a b : val) : res val := lt_val a b >>= fun c => Ok (if c then b else a).
 
 (* votelib.util.add_dict_to_dict(d1, d2) *)
 Definition add_dict (d1 d2 : dict) : res dict :=
@@ -150,11 +177,56 @@ Definition subset_votes (votes subset : val) : res val :=
                else Ok a) d (Ok [])
   >>= fun r => Ok (VDict r).
 
+(* ---- the same two parts stated DECLARATIVELY (the spec side of the composition theorem uses these).
+   VoteTotals: every candidate, in the order of first appearance, with the sum of its counts over all constituencies.
+   SubsettedVotes(SimpleSubsetter): the votes filtered to the candidates of the subset.
+   Both on well-formed values (integer counts; for the filter: no key twice, the subset a list / Tie / dictionary); on any
+   other value the answer is whatever the code answers (its exception) - Proofs/WrapParts_proofs.v shows that the code-shaped
+   definitions above compute exactly these on well-formed values, hence the two agree on EVERY value. *)
+Definition is_int (v : val) : bool := match v with VInt _ => true | _ => false end.
+Definition getz (v : val) : Z := match v with VInt z => z | _ => 0 end.
+Definition int_dict (d : dict) : bool := forallb (fun kv => is_int (snd kv)) d.
+Fixpoint nodup_keys (d : dict) : bool :=
+  match d with [] => true | (k, _) :: t => negb (dmem t k) && nodup_keys t end.
+Definition nested_int (d : dict) : bool :=
+  forallb (fun kv => match snd kv with VDict dv => int_dict dv | _ => false end) d.
+Definition entries (d : dict) : list (key * val) :=
+  flat_map (fun kv => match snd kv with VDict dv => dv | _ => [] end) d.
+Definition memk (k : key) (ks : list key) : bool := existsb (key_eqb k) ks.
+Definition keys_first (es : list (key * val)) : list key :=
+  fold_left (fun ks kv => if memk (fst kv) ks then ks else ks ++ [fst kv]) es [].
+Definition total_of (es : list (key * val)) (k : key) : Z :=
+  fold_left (fun a kv => if key_eqb (fst kv) k then a + getz (snd kv) else a) es 0.
+Definition totals_table (es : list (key * val)) : dict :=
+  map (fun k => (k, VInt (total_of es k))) (keys_first es).
+Definition totals_s (votes : val) : res val :=
+  match votes with
+  | VDict d => if nested_int d then Ok (VDict (totals_table (entries d))) else vote_totals votes
+  | _ => vote_totals votes
+  end.
+
+Definition mem_b (subset : val) (k : key) : bool :=
+  match subset with
+  | VList l => existsb (fun x => match x with VKey k' => key_eqb k' k | _ => false end) l
+  | VKey (KT t) => match k with KC c => existsb (Pos.eqb c) t | KT _ => false end
+  | VDict d => dmem d k
+  | _ => false
+  end.
+Definition subset_kind (s : val) : bool :=
+  match s with VList _ | VKey (KT _) | VDict _ => true | _ => false end.
+Definition subset_s (votes subset : val) : res val :=
+  match votes with
+  | VDict d => if int_dict d && nodup_keys d && subset_kind subset
+               then Ok (VDict (filter (fun kv => mem_b subset (fst kv)) d))
+               else subset_votes votes subset
+  | _ => subset_votes votes subset
+  end.
+
 (* type(x)() *)
 Definition empty_like (v : val) : res val :=
   match v with
   | VList _ => Ok (VList []) | VDict _ => Ok (VDict []) | VInt _ => Ok (VInt 0) | VNone => Ok VNone
-  | VKey _ => raise E_UNMODELLED
+  | VKey _ | VRat _ => raise E_UNMODELLED
   end.
 
 (* l[:n] *)
@@ -299,6 +371,7 @@ Definition sig_constit := SG [(KSeats, Some VNone); (KPrev, Some (VDict [])); (K
 Definition sig_cond := SG [(KSeats, Some VNone); (KPrev, Some (VDict []))] false [] true.
 Definition sig_fixed := SG [] false [] true.
 Definition sig_plist := SG [(KSeats, None)] false [(KPl, None); (KLv, Some VNone)] true.
+Definition sig_adj := SG [(KSeats, None); (KPrev, None); (KMax, Some (VDict []))] false [] false.   (* AdjustedSeatCount *)
 
 (* leaf kinds = the evaluate() signatures of the base evaluators *)
 Inductive lkind := LSel | LSelD | LDist | LThr | LThrP | LThrPR | LSDist | LOpen.
@@ -333,17 +406,29 @@ Inductive ev :=
 | Multi (rs : list ev) (depth : nat)              (* depth = MultistageDistributor.depth - 1 *)
 | TieBr (m : ev) (b : ev)
 | PListC (p : ev)                                 (* closed lists *)
-| PListO (p : ev) (le : ev) (c : option positive) (* open lists, optional list_votes_converter *).
+| PListO (p : ev) (le : ev) (c : option positive) (* open lists, optional list_votes_converter *)
+| VSys (e : ev)                                   (* votelib.VotingSystem: every argument is passed on *)
+| Unused (rs : list ev) (qs : list positive) (depth : nat)
+                                                  (* UnusedVotesDistributor: rounds, quota functions (arbitrary functions,
+                                                     answered by [leaf]), depth - 1 *)
+| AdjLeaf (c : positive) (e : ev)                 (* AdjustedSeatCount with an arbitrary calculator (answered by [leaf]) *)
+| AdjAllow (pe : ev) (e : ev)                     (* AdjustedSeatCount(AllowOverhang(pe), e) *)
+| AdjLevel (pe : ev) (e : ev) (fuel : nat)        (* AdjustedSeatCount(LevelOverhang(pe), e); fuel of the levelling loop (model only) *)
+| ByConsP (e : ev) (a : aspec) (pre : ev)         (* ByConstituency with a preselector (fixed / delegated apportionment) *)
+| AdjLevelC (ce : ev) (oe : ev) (e : ev) (fuel : nat)
+                                                  (* AdjustedSeatCount(LevelOverhangByConstituency(ce, oe), e) *)
+| AdjLevelC0 (ce : ev) (e : ev) (fuel : nat)      (* ... overall_evaluator=None: PostConverted(ce, MergedDistributions()) *).
 
 Definition sig_of (t : ev) : sigt :=
   match t with
   | Leaf _ k => lsig k
-  | PreConv _ _ | PostConv _ _ | TieBr _ _ => sig_generic
+  | PreConv _ _ | PostConv _ _ | TieBr _ _ | VSys _ => sig_generic
   | Fixed _ _ => sig_fixed
   | Cond _ _ _ => sig_cond
-  | ByCons _ _ | ByConsD _ _ | PreApp _ _ | PreAppD _ _ | RemApp _ | ByParty _ _ | ByPartyS _ => sig_constit
-  | Multi _ _ => sig_distr
+  | ByCons _ _ | ByConsD _ _ | PreApp _ _ | PreAppD _ _ | RemApp _ | ByParty _ _ | ByPartyS _ | ByConsP _ _ _ => sig_constit
+  | Multi _ _ | Unused _ _ _ => sig_distr
   | PListC _ | PListO _ _ _ => sig_plist
+  | AdjLeaf _ _ | AdjAllow _ _ | AdjLevel _ _ _ | AdjLevelC _ _ _ _ | AdjLevelC0 _ _ _ => sig_adj
   end.
 Definition attr_of (t : ev) : option bool := match t with Fixed _ _ => Some false | _ => None end.
 Definition acc_seats (t : ev) : bool := acc_seats_sig (attr_of t) (sig_of t).
@@ -354,10 +439,11 @@ Definition acc_prev (t : ev) : bool := acc_prev_sig (sig_of t).
 Fixpoint takes (t : ev) (k : kw) : bool :=
   match t with
   | Leaf _ lk => has_param (lsig lk) k
-  | PreConv _ e | PostConv e _ | TieBr e _ => takes e k
+  | PreConv _ e | PostConv e _ | TieBr e _ | VSys e => takes e k
   | Fixed e _ => negb (kw_eqb k KSeats) && takes e k
   | Cond _ e _ => kw_eqb k KSeats || kw_eqb k KPrev || takes e k
-  | ByCons _ _ | ByConsD _ _ | PreApp _ _ | PreAppD _ _ | RemApp _ | ByParty _ _ | ByPartyS _ | Multi _ _ =>
+  | ByCons _ _ | ByConsD _ _ | PreApp _ _ | PreAppD _ _ | RemApp _ | ByParty _ _ | ByPartyS _ | Multi _ _
+  | Unused _ _ _ | AdjLeaf _ _ | AdjAllow _ _ | AdjLevel _ _ _ | ByConsP _ _ _ | AdjLevelC _ _ _ _ | AdjLevelC0 _ _ _ =>
       kw_eqb k KSeats || kw_eqb k KPrev || kw_eqb k KMax
   | PListC p | PListO p _ _ => kw_eqb k KSeats || kw_eqb k KPl || kw_eqb k KLv || takes p k
   end.
@@ -369,16 +455,19 @@ Section Run.
   Variable conv : positive -> val -> res val.                         (* converter *)
 
   Definition named_list (r : kwrec) : list (option val) := map (kget r) all_kw.
+  Definition only (k : kw) (v : val) : kwrec := kset kw_none k (Some v).
+  Definition sa_npm (n p m : val) : kwrec := KW (Some n) (Some p) (Some m) None None None.
 
   (* ================================================================ helpers of both semantics *)
   (* Conditioned._sum_party_votes *)
-  Fixpoint sum_party (d : nat) (v : val) : res val :=
+  Fixpoint sum_party_g (tot : val -> res val) (d : nat) (v : val) : res val :=
     match d with
     | O => Ok v
     | S d' => as_dict v >>= fun dd =>
-              map_res (fun kv => sum_party d' (snd kv) >>= fun x => Ok (fst kv, x)) dd >>= fun dd' =>
-              vote_totals (VDict dd')
+              map_res (fun kv => sum_party_g tot d' (snd kv) >>= fun x => Ok (fst kv, x)) dd >>= fun dd' =>
+              tot (VDict dd')
     end.
+  Definition sum_party := sum_party_g vote_totals.
   (* Conditioned._elim_party_votes *)
   Fixpoint elim_party (d : nat) (v ne : val) : res val :=
     match d with
@@ -439,9 +528,10 @@ Section Run.
     end.
 
   (* ByParty: seats of one party disaggregated to constituencies *)
-  Definition party_votes (votes : dict) (party : key) : res val :=
-    map_res (fun kv => subset_votes (snd kv) (VList [VKey party]) >>= as_dict >>= sum_values >>= fun s => Ok (fst kv, s))
+  Definition party_votes_g (sub : val -> val -> res val) (votes : dict) (party : key) : res val :=
+    map_res (fun kv => sub (snd kv) (VList [VKey party]) >>= as_dict >>= sum_values >>= fun s => Ok (fst kv, s))
             votes >>= fun r => Ok (VDict r).
+  Definition party_votes := party_votes_g subset_votes.
   Definition party_slice (nested : val) (party : key) : res val :=
     as_dict nested >>= fun d =>
     map_res (fun kv => as_dict (snd kv) >>= fun cg => Ok (fst kv, dget cg party)) d >>= fun r =>
@@ -466,27 +556,150 @@ Section Run.
     | _, _ => raise E_TYPE
     end.
 
+  (* --- UnusedVotesDistributor helpers (core.py L413-473); a quota function is an arbitrary function of
+     (total votes, seats), answered by [leaf q total [n_seats]] *)
+  (* _gained_seats *)
+  Fixpoint gained (d : nat) (el : val) : res val :=
+    as_dict el >>= fun dd =>
+    match d with
+    | O => sum_values dd
+    | S d' => fold_left (fun acc kv => acc >>= fun a => gained d' (snd kv) >>= fun g => add_val a g) dd (Ok (VInt 0))
+    end.
+  (* _subtract_gained_seats: a seat dictionary is reduced constituency by constituency, a number by all seats gained *)
+  Fixpoint sub_gained (d : nat) (n_seats el : val) : res val :=
+    match n_seats, d with
+    | VDict nd, S d' =>
+        as_dict el >>= fun ed =>
+        map_res (fun cn => sub_gained d' (snd cn) (dget_or ed (fst cn) (VDict [])) >>= fun x => Ok (fst cn, x)) nd
+        >>= fun r => Ok (VDict r)
+    | VDict _, O => raise E_UNMODELLED       (* a seat dictionary at depth 1: ill-typed, not modelled *)
+    | _, _ => gained d el >>= fun g => sub_val n_seats g
+    end.
+  (* _use_votes: every candidate loses quota * seats gained; VotingSystemError when that exceeds its votes.
+     depth >= 2: a seat NUMBER counts for every constituency (repair C14-unusedvotes-uniform-seats) *)
+  Fixpoint use_votes (q : positive) (d : nat) (votes el n_seats : val) : res val :=
+    match d with
+    | O =>
+        as_dict votes >>= fun vd => sum_values vd >>= fun total =>
+        leaf q total (named_list (only KSeats n_seats)) >>= fun quota_val =>
+        map_res (fun cv => as_dict el >>= fun ed =>
+                           mul_val quota_val (dget_or ed (fst cv) (VInt 0)) >>= fun ts =>
+                           lt_val (snd cv) ts >>= fun b =>
+                           if b then raise E_VSE else sub_val (snd cv) ts >>= fun r => Ok (fst cv, r)) vd
+        >>= fun r => Ok (VDict r)
+    | S d' =>
+        as_dict votes >>= fun vd =>
+        map_res (fun cv => as_dict el >>= fun ed =>
+                           use_votes q d' (snd cv) (dget_or ed (fst cv) (VDict []))
+                                     (match n_seats with VDict nd => dget_or nd (fst cv) (VInt 0) | _ => n_seats end)
+                           >>= fun r => Ok (fst cv, r)) vd
+        >>= fun r => Ok (VDict r)
+    end.
+
+  (* --- seat count adjusters (core.py AllowOverhang.calculate L547-574, LevelOverhang.calculate L600-640);
+     [E n mx] = self.evaluator.evaluate(votes, n, max_seats=mx) *)
+  Definition calc_allow (E : val -> val -> res val) (n prev mx : val) : res val :=
+    E n mx >>= fun prop =>
+    as_dict prev >>= fun pd =>
+    fold_left (fun acc cp => acc >>= fun adj =>
+                 as_dict prop >>= fun propd =>
+                 let pc := dget_or propd (fst cp) (VInt 0) in
+                 lt_val pc (snd cp) >>= fun b =>
+                 if b then sub_val (snd cp) pc >>= add_val adj else Ok adj) pd (Ok (VInt 0)).
+
+  (* any(prop_result.get(party, 0) < minimum for party, minimum in pmins) *)
+  Fixpoint any_below (prop : val) (pmins : dict) : res bool :=
+    match pmins with
+    | [] => Ok false
+    | (p, m) :: t => as_dict prop >>= fun propd =>
+                     lt_val (dget_or propd p (VInt 0)) m >>= fun b => if b then Ok true else any_below prop t
+    end.
+  Fixpoint level_loop (fuel : nat) (E : val -> val -> res val) (mx : val) (pmins : dict) (adj prop : val) : res val :=
+    any_below prop pmins >>= fun b =>
+    if b then
+      match fuel with
+      | O => raise E_FUEL
+      | S f => add_val adj (VInt 1) >>= fun adj' => E adj' mx >>= fun prop' => level_loop f E mx pmins adj' prop'
+      end
+    else Ok adj.
+  Definition calc_level (fuel : nat) (E : val -> val -> res val) (n prev mx : val) : res val :=
+    E n mx >>= fun prop =>
+    as_dict prop >>= fun propd =>
+    map_res (fun pg => as_dict prev >>= fun pd => max_val (dget_or pd (fst pg) (VInt 0)) (snd pg) >>= fun m => Ok (fst pg, m)) propd
+    >>= fun lowest =>
+    as_dict prev >>= fun pd =>
+    fold_left (fun acc cp => acc >>= fun dr => if dmem lowest (fst cp) then Ok dr else add_val dr (snd cp)) pd (Ok (VInt 0))
+    >>= fun drop =>
+    sub_val n drop >>= fun adj0 =>
+    level_loop fuel E mx lowest adj0 prop >>= fun adj =>
+    add_val adj drop >>= fun x => sub_val x n.
+
+  (* convert.MergedDistributions().convert *)
+  Definition merged_distr (v : val) : res val :=
+    match v with
+    | VDict _ => vote_totals v
+    | VList l => fold_left (fun acc x => acc >>= fun a => as_dict x >>= fun dv => add_dict a dv) l (Ok [])
+                 >>= fun r => Ok (VDict r)
+    | _ => raise E_TYPE
+    end.
+
+  (* LevelOverhangByConstituency.calculate (core.py L670-745, with the repairs 7a76c1b, d14cd5d):
+     [CE n mx] = constituency_evaluator.evaluate(votes, n, max_seats=mx); [PV] = the votes the overall evaluator gets
+     (VoteTotals of the votes, or the votes themselves); [OE pv h mx] = overall_evaluator.evaluate(pv, h, max_seats=mx) *)
+  Definition calc_level_byc (fuel : nat) (CE : val -> val -> res val) (PV : res val) (OE : val -> val -> val -> res val)
+             (n prev mx : val) : res val :=
+    CE n mx >>= fun cty_results =>
+    as_dict cty_results >>= fun crd =>
+    map_res (fun cr => as_dict (snd cr) >>= fun cps =>
+                       map_res (fun ps => as_dict prev >>= fun pd =>
+                                           as_dict (dget_or pd (fst cr) (VDict [])) >>= fun pcd =>
+                                           max_val (dget_or pcd (fst ps) (VInt 0)) (snd ps) >>= fun m => Ok (fst ps, m)) cps
+                       >>= fun r => Ok (fst cr, VDict r)) crd >>= fun minima =>
+    vote_totals (VDict minima) >>= as_dict >>= fun lowest0 =>
+    as_dict prev >>= fun pd =>
+    (* first round seats of a second round party in a constituency where it gets no proportional seat *)
+    fold_left (fun acc cg => acc >>= fun low0 =>
+                 let cps := dget_or crd (fst cg) (VDict []) in
+                 as_dict (snd cg) >>= fun gains =>
+                 fold_left (fun acc2 pg => acc2 >>= fun low =>
+                              if dmem low (fst pg)
+                              then as_dict cps >>= fun cpd =>
+                                   if dmem cpd (fst pg) then Ok low
+                                   else add_val (dget_or low (fst pg) (VInt 0)) (snd pg) >>= fun x => Ok (dset low (fst pg) x)
+                              else Ok low) gains (Ok low0)) pd (Ok lowest0) >>= fun lowest =>
+    fold_left (fun acc cg => acc >>= fun d0 =>
+                 as_dict (snd cg) >>= fun gains =>
+                 fold_left (fun acc2 pg => acc2 >>= fun dr =>
+                              if dmem lowest (fst pg) then Ok dr else add_val dr (snd pg)) gains (Ok d0)) pd (Ok (VInt 0))
+    >>= fun drop =>
+    sub_val n drop >>= fun adj0 =>
+    PV >>= fun pv =>
+    OE pv adj0 mx >>= fun prop =>
+    level_loop fuel (OE pv) mx lowest adj0 prop >>= fun adj =>
+    add_val adj drop >>= fun x => sub_val x n.
+
   (* tie replacement loop of TieBreaking.evaluate; [brk sub n] runs the tiebreaker *)
-  Definition break_ties (brk : val -> val -> res val) (votes main : val) : res val :=
+  Definition break_ties_g (sub : val -> val -> res val) (brk : val -> val -> res val) (votes main : val) : res val :=
     match main with
     | VList l =>
         if existsb (fun x => match x with VKey k => is_tie k | _ => false end) l then
           collect_ties_sel l >>= fun ties =>
           fold_left (fun acc tn => acc >>= fun cur =>
-                       subset_votes votes (VKey (fst tn)) >>= fun sub =>
-                       brk sub (snd tn) >>= iter_val >>= fun repl => replace_sel cur (fst tn) repl)
+                       sub votes (VKey (fst tn)) >>= fun sv =>
+                       brk sv (snd tn) >>= iter_val >>= fun repl => replace_sel cur (fst tn) repl)
                     ties (Ok l) >>= fun r => Ok (VList r)
         else Ok main
     | VDict d =>
         if existsb (fun kv => is_tie (fst kv)) d then
           collect_ties_distr d >>= fun ties =>
           fold_left (fun acc tn => acc >>= fun cur =>
-                       subset_votes votes (VKey (fst tn)) >>= fun sub =>
-                       brk sub (snd tn) >>= iter_val >>= fun repl => replace_distr cur (fst tn) repl)
+                       sub votes (VKey (fst tn)) >>= fun sv =>
+                       brk sv (snd tn) >>= iter_val >>= fun repl => replace_distr cur (fst tn) repl)
                     ties (Ok d) >>= fun r => Ok (VDict r)
         else Ok main
     | _ => raise E_TYPE
     end.
+  Definition break_ties := break_ties_g subset_votes.
 
   (* ================================================================ run_impl : the code *)
   Definition call0 : pargs := PA [] kw_none.
@@ -643,6 +856,87 @@ Section Run.
                                 subscript (nget b KPl) (fst pn) >>= fun cl =>
                                 run_impl le plv (PA [snd pn; cl] kw_none) >>= fun l => Ok (fst pn, l)) party_result
              >>= fun r => Ok (VDict r)
+    | VSys e => run_impl e votes pa
+    | Unused rs qs d =>
+        bind sig_distr pa >>= fun b =>
+        as_dict (nget b KPrev) >>= fun elected0 =>
+        if truthy (nget b KMax) then raise E_NIE
+        else
+        (fix go (rs : list ev) (qs : list (option positive)) (votes n_seats : val) (elected : dict) {struct rs} : res dict :=
+           match rs, qs with
+           | s :: rs', q :: qs' =>
+               run_impl s votes (call_n n_seats) >>= fun stage_res =>
+               as_dict stage_res >>= fun srd =>
+               add_stage d elected srd >>= fun elected' =>
+               match q with
+               | None => go rs' qs' votes n_seats elected'
+               | Some qf =>
+                   (* the votes used up and the seats left are computed from THIS stage's result *)
+                   use_votes qf d votes stage_res n_seats >>= fun votes' =>
+                   sub_gained d n_seats stage_res >>= fun n_seats' =>
+                   go rs' qs' votes' n_seats' elected'
+               end
+           | _, _ => Ok elected
+           end) rs (map Some qs ++ [None]) votes (nget b KSeats) elected0 >>= fun r => Ok (VDict r)
+    | AdjLeaf c e =>
+        bind sig_adj pa >>= fun b =>
+        leaf c votes (named_list (b_named b)) >>= fun seat_adj =>
+        add_val (nget b KSeats) seat_adj >>= fun n' =>
+        run_impl e votes (call_npm n' (nget b KPrev) (nget b KMax))
+    | AdjAllow pe e =>
+        bind sig_adj pa >>= fun b =>
+        calc_allow (fun n mx => run_impl pe votes (PA [n] (only KMax mx))) (nget b KSeats) (nget b KPrev) (nget b KMax)
+        >>= fun seat_adj =>
+        add_val (nget b KSeats) seat_adj >>= fun n' =>
+        run_impl e votes (call_npm n' (nget b KPrev) (nget b KMax))
+    | AdjLevel pe e fuel =>
+        bind sig_adj pa >>= fun b =>
+        calc_level fuel (fun n mx => run_impl pe votes (PA [n] (only KMax mx))) (nget b KSeats) (nget b KPrev) (nget b KMax)
+        >>= fun seat_adj =>
+        add_val (nget b KSeats) seat_adj >>= fun n' =>
+        run_impl e votes (call_npm n' (nget b KPrev) (nget b KMax))
+    | ByConsP e a pre =>
+        bind sig_constit pa >>= fun b =>
+        let n_seats := nget b KSeats in
+        (match a with
+         | AInt n => uniform votes (VInt n)
+         | ADict d => Ok (VDict d)
+         | ANone => match n_seats with
+                    | VDict _ => Ok n_seats
+                    | VInt _ => uniform votes n_seats
+                    | _ => raise E_VALUE
+                    end
+         end) >>= fun apportionment =>
+        (* _preselect: the national totals through the preselector (repair: an omitted seat count is not forwarded) *)
+        vote_totals votes >>= fun nat_votes =>
+        (if acc_seats pre && negb (is_none n_seats) then run_impl pre nat_votes (call_n n_seats)
+         else run_impl pre nat_votes call0) >>= fun preselected =>
+        as_dict votes >>= fun dvs =>
+        map_res (fun kv =>
+                   as_dict apportionment >>= fun ad =>
+                   as_dict (nget b KPrev) >>= fun pd =>
+                   as_dict (nget b KMax) >>= fun md =>
+                   let n := dget_or ad (fst kv) (VInt 0) in
+                   if is_zero n then Ok (fst kv, None)
+                   else subset_votes (snd kv) preselected >>= fun sv =>
+                        (if acc_prev e
+                         then run_impl e sv (call_npm n (dget_or pd (fst kv) (VDict [])) (dget_or md (fst kv) (VDict [])))
+                         else run_impl e sv (call_n n)) >>= fun r => Ok (fst kv, Some r)) dvs
+        >>= finish_districts
+    | AdjLevelC ce oe e fuel =>
+        bind sig_adj pa >>= fun b =>
+        calc_level_byc fuel (fun n mx => run_impl ce votes (PA [n] (only KMax mx)))
+                       (vote_totals votes) (fun pv h mx => run_impl oe pv (PA [h] (only KMax mx)))
+                       (nget b KSeats) (nget b KPrev) (nget b KMax) >>= fun seat_adj =>
+        add_val (nget b KSeats) seat_adj >>= fun n' =>
+        run_impl e votes (call_npm n' (nget b KPrev) (nget b KMax))
+    | AdjLevelC0 ce e fuel =>
+        bind sig_adj pa >>= fun b =>
+        calc_level_byc fuel (fun n mx => run_impl ce votes (PA [n] (only KMax mx)))
+                       (Ok votes) (fun pv h mx => run_impl ce pv (PA [h] (only KMax mx)) >>= merged_distr)
+                       (nget b KSeats) (nget b KPrev) (nget b KMax) >>= fun seat_adj =>
+        add_val (nget b KSeats) seat_adj >>= fun n' =>
+        run_impl e votes (call_npm n' (nget b KPrev) (nget b KMax))
     end.
 
   (* ================================================================ run_spec : by hand *)
@@ -651,8 +945,6 @@ Section Run.
      filled in - "calling the part with these named arguments". *)
   Definition accept (s : sigt) (sa : kwrec) : res bound := bind s (PA [] sa).
   Definition sa_get (b : bound) (k : kw) : val := nget b k.
-  Definition only (k : kw) (v : val) : kwrec := kset kw_none k (Some v).
-  Definition sa_npm (n p m : val) : kwrec := KW (Some n) (Some p) (Some m) None None None.
   Definition given (v : val) : option val := if is_none v then None else Some v.
 
   Fixpoint run_spec (t : ev) (votes : val) (sa : kwrec) {struct t} : res val :=
@@ -668,11 +960,11 @@ Section Run.
     | Cond el e d =>
         accept sig_cond sa >>= fun b =>
         let prev := sa_get b KPrev in
-        sum_party d votes >>= fun summed_votes =>
-        sum_party d prev >>= fun summed_prev =>
+        sum_party_g totals_s d votes >>= fun summed_votes =>
+        sum_party_g totals_s d prev >>= fun summed_prev =>
         run_spec el summed_votes (if takes el KPrev then only KPrev summed_prev else kw_none) >>= fun passed =>
         (* the votes restricted, at the nesting depth of the ballots, to the candidates passed *)
-        map_depth d (fun v => subset_votes v passed) votes >>= fun restricted =>
+        map_depth d (fun v => subset_s v passed) votes >>= fun restricted =>
         run_spec e restricted
           (kset (kset (b_kwargs b) KSeats (if takes e KSeats then given (sa_get b KSeats) else None))
                 KPrev (if takes e KPrev then Some prev else None))
@@ -742,11 +1034,11 @@ Section Run.
         run_spec e votes (sa_npm total (sa_get b KPrev) (sa_get b KMax))
     | ByParty ov al =>
         accept sig_constit sa >>= fun b =>
-        vote_totals votes >>= fun overall_votes =>
+        totals_s votes >>= fun overall_votes =>
         run_spec ov overall_votes (kset kw_none KSeats (given (sa_get b KSeats))) >>= as_dict >>= fun overall_result =>
         as_dict votes >>= fun dvs =>
         fold_left (fun acc ps => acc >>= fun results =>
-                     party_votes dvs (fst ps) >>= fun pv =>
+                     party_votes_g subset_s dvs (fst ps) >>= fun pv =>
                      (if takes al KPrev then
                         party_slice (sa_get b KPrev) (fst ps) >>= fun pp =>
                         party_slice (sa_get b KMax) (fst ps) >>= fun pm =>
@@ -756,11 +1048,11 @@ Section Run.
         Ok (VDict (fill_constituencies results dvs))
     | ByPartyS ov =>
         accept sig_constit sa >>= fun b =>
-        vote_totals votes >>= fun overall_votes =>
+        totals_s votes >>= fun overall_votes =>
         run_spec ov overall_votes (kset kw_none KSeats (given (sa_get b KSeats))) >>= as_dict >>= fun overall_result =>
         as_dict votes >>= fun dvs =>
         fold_left (fun acc ps => acc >>= fun results =>
-                     party_votes dvs (fst ps) >>= fun pv =>
+                     party_votes_g subset_s dvs (fst ps) >>= fun pv =>
                      (if takes ov KPrev then
                         party_slice (sa_get b KPrev) (fst ps) >>= fun pp =>
                         party_slice (sa_get b KMax) (fst ps) >>= fun pm =>
@@ -782,7 +1074,7 @@ Section Run.
            end) rs svs elected0 >>= fun r => Ok (VDict r)
     | TieBr m br =>
         run_spec m votes sa >>= fun main =>
-        break_ties (fun sub n => run_spec br sub (only KSeats n)) votes main
+        break_ties_g subset_s (fun sub n => run_spec br sub (only KSeats n)) votes main
     | PListC p =>
         accept sig_plist sa >>= fun b =>
         run_spec p votes (kset (b_kwargs b) KSeats (Some (sa_get b KSeats))) >>= as_dict >>= fun party_result =>
@@ -799,6 +1091,85 @@ Section Run.
                                 run_spec le plv (KW (Some (snd pn)) None None None None (Some cl)) >>= fun l => Ok (fst pn, l))
                      party_result
              >>= fun r => Ok (VDict r)
+    | VSys e => run_spec e votes sa                                   (* the system object adds nothing *)
+    | Unused rs qs d =>
+        (* chain the stages: each one sees the votes not yet used up and the seats not yet given; the result is the
+           previous gains plus every stage's seats *)
+        accept sig_distr sa >>= fun b =>
+        as_dict (sa_get b KPrev) >>= fun elected0 =>
+        if truthy (sa_get b KMax) then raise E_NIE
+        else
+        (fix go (rs : list ev) (qs : list (option positive)) (votes n_seats : val) (elected : dict) {struct rs} : res dict :=
+           match rs, qs with
+           | s :: rs', q :: qs' =>
+               run_spec s votes (only KSeats n_seats) >>= fun stage_res =>
+               as_dict stage_res >>= fun srd =>
+               add_stage d elected srd >>= fun elected' =>
+               match q with
+               | None => go rs' qs' votes n_seats elected'
+               | Some qf =>
+                   use_votes qf d votes stage_res n_seats >>= fun votes' =>
+                   sub_gained d n_seats stage_res >>= fun n_seats' =>
+                   go rs' qs' votes' n_seats' elected'
+               end
+           | _, _ => Ok elected
+           end) rs (map Some qs ++ [None]) votes (sa_get b KSeats) elected0 >>= fun r => Ok (VDict r)
+    | AdjLeaf c e =>                                                  (* = evaluating with the adjusted seat count *)
+        accept sig_adj sa >>= fun b =>
+        leaf c votes (named_list (b_named b)) >>= fun seat_adj =>
+        add_val (sa_get b KSeats) seat_adj >>= fun n' =>
+        run_spec e votes (sa_npm n' (sa_get b KPrev) (sa_get b KMax))
+    | AdjAllow pe e =>
+        accept sig_adj sa >>= fun b =>
+        calc_allow (fun n mx => run_spec pe votes (KW (Some n) None (Some mx) None None None))
+                   (sa_get b KSeats) (sa_get b KPrev) (sa_get b KMax) >>= fun seat_adj =>
+        add_val (sa_get b KSeats) seat_adj >>= fun n' =>
+        run_spec e votes (sa_npm n' (sa_get b KPrev) (sa_get b KMax))
+    | AdjLevel pe e fuel =>
+        accept sig_adj sa >>= fun b =>
+        calc_level fuel (fun n mx => run_spec pe votes (KW (Some n) None (Some mx) None None None))
+                   (sa_get b KSeats) (sa_get b KPrev) (sa_get b KMax) >>= fun seat_adj =>
+        add_val (sa_get b KSeats) seat_adj >>= fun n' =>
+        run_spec e votes (sa_npm n' (sa_get b KPrev) (sa_get b KMax))
+    | ByConsP e a pre =>
+        (* each constituency separately, on its votes restricted to the candidates preselected on the national totals *)
+        accept sig_constit sa >>= fun b =>
+        (match a, k_seats sa with
+         | AInt n, _ => uniform votes (VInt n)
+         | ADict d, _ => Ok (VDict d)
+         | ANone, Some (VDict d) => Ok (VDict d)
+         | ANone, Some (VInt n) => uniform votes (VInt n)
+         | ANone, _ => raise E_VALUE
+         end) >>= fun apportionment =>
+        totals_s votes >>= fun nat_votes =>
+        run_spec pre nat_votes (kset kw_none KSeats (if takes pre KSeats then given (sa_get b KSeats) else None)) >>= fun preselected =>
+        as_dict votes >>= fun dvs =>
+        map_res (fun kv =>
+                   as_dict apportionment >>= fun ad =>
+                   as_dict (sa_get b KPrev) >>= fun pd =>
+                   as_dict (sa_get b KMax) >>= fun md =>
+                   let n := dget_or ad (fst kv) (VInt 0) in
+                   if is_zero n then Ok (fst kv, None)
+                   else subset_s (snd kv) preselected >>= fun sv =>
+                        run_spec e sv
+                          (if takes e KPrev
+                           then sa_npm n (dget_or pd (fst kv) (VDict [])) (dget_or md (fst kv) (VDict []))
+                           else only KSeats n) >>= fun r => Ok (fst kv, Some r)) dvs
+        >>= finish_districts
+    | AdjLevelC ce oe e fuel =>
+        accept sig_adj sa >>= fun b =>
+        calc_level_byc fuel (fun n mx => run_spec ce votes (KW (Some n) None (Some mx) None None None))
+                       (totals_s votes) (fun pv h mx => run_spec oe pv (KW (Some h) None (Some mx) None None None))
+                       (sa_get b KSeats) (sa_get b KPrev) (sa_get b KMax) >>= fun seat_adj =>
+        add_val (sa_get b KSeats) seat_adj >>= fun n' =>
+        run_spec e votes (sa_npm n' (sa_get b KPrev) (sa_get b KMax))
+    | AdjLevelC0 ce e fuel =>
+        accept sig_adj sa >>= fun b =>
+        calc_level_byc fuel (fun n mx => run_spec ce votes (KW (Some n) None (Some mx) None None None))
+                       (Ok votes) (fun pv h mx => run_spec ce pv (KW (Some h) None (Some mx) None None None) >>= merged_distr)
+                       (sa_get b KSeats) (sa_get b KPrev) (sa_get b KMax) >>= fun seat_adj =>
+        add_val (sa_get b KSeats) seat_adj >>= fun n' =>
+        run_spec e votes (sa_npm n' (sa_get b KPrev) (sa_get b KMax))
     end.
 End Run.
 
@@ -823,38 +1194,93 @@ Definition takes_spm (e : ev) : bool := takes e KSeats && takes e KPrev && takes
 Definition prev_implies_max (e : ev) : bool := implb (takes e KPrev) (takes e KMax).
 Definition is_open_leaf (e : ev) : bool := match e with Leaf _ LOpen => true | _ => false end.
 
+(* ---- seat counts and seatless parts.  A distributor apportioner (ByConstituency / PreApportioned) or ByParty's overall
+   evaluator may be SEATLESS (VotesPerSeat ...): core.apportion hands a seat NUMBER to the apportioner positionally without
+   looking at its signature, ByParty does the same with any seat count that is not None.  [seat_ok t v]: tree t may be
+   called with the seat count v (VNone = omitted); [seat_any t]: with any seat count (what [wt] asks where the count is
+   computed by a wrapper). *)
+Fixpoint seat_any (t : ev) : bool :=
+  match t with
+  | Leaf _ _ | Fixed _ _ | ByCons _ _ | PreApp _ _ | RemApp _ | ByPartyS _
+  | Unused _ _ _ | AdjLeaf _ _ | AdjAllow _ _ | AdjLevel _ _ _ | AdjLevelC _ _ _ _ | AdjLevelC0 _ _ _ => true
+  | PreConv _ e | PostConv e _ | TieBr e _ | VSys e | PListC e | PListO e _ _ | Cond _ e _ => seat_any e
+  | ByConsD _ ae | PreAppD _ ae => takes ae KSeats
+  | ByParty ov _ => takes ov KSeats
+  | Multi rs _ => forallb seat_any rs
+  | ByConsP _ _ pre => seat_any pre
+  end.
+Fixpoint seat_ok (t : ev) (v : val) : bool :=
+  match t with
+  | Leaf _ _ | Fixed _ _ | ByCons _ _ | PreApp _ _ | RemApp _ | ByPartyS _
+  | Unused _ _ _ | AdjLeaf _ _ | AdjAllow _ _ | AdjLevel _ _ _ | AdjLevelC _ _ _ _ | AdjLevelC0 _ _ _ => true
+  | PreConv _ e | PostConv e _ | TieBr e _ | VSys e | PListC e | PListO e _ _ => seat_ok e v
+  | Cond _ e _ => if takes e KSeats && negb (is_none v) then seat_ok e v else seat_ok e VNone
+  | ByConsD _ ae | PreAppD _ ae => match v with VInt _ => takes ae KSeats | _ => true end
+  | ByParty ov _ => is_none v || takes ov KSeats
+  | Multi rs _ => forallb (fun s => seat_ok s v) rs
+  | ByConsP _ _ pre => if takes pre KSeats && negb (is_none v) then seat_ok pre v else seat_ok pre VNone
+  end.
+Definition seat_of (sa : kwrec) : val := match k_seats sa with Some v => v | None => VNone end.
+Definition seat_fits (t : ev) (sa : kwrec) : bool := seat_ok t (seat_of sa).
+
 (* [wt]: every part is handed only arguments it takes ; [faithful]: the inspect-based dispatch
    agrees with what the inspected part takes *)
 Fixpoint wt (t : ev) : bool :=
   match t with
   | Leaf _ _ => true
-  | PreConv _ e | PostConv e _ => wt e
-  | Fixed e _ => takes e KSeats && wt e
-  | Cond el e _ => wt el && wt e
-  | ByCons e _ => takes e KSeats && prev_implies_max e && wt e
-  | ByConsD e ae => takes e KSeats && prev_implies_max e && wt e && takes ae KSeats && wt ae
-  | PreApp e _ => takes_spm e && wt e
-  | PreAppD e ae => takes_spm e && wt e && takes ae KSeats && wt ae
-  | RemApp e => takes_spm e && wt e
-  | ByParty ov al => takes ov KSeats && wt ov && takes al KSeats && prev_implies_max al && wt al
-  | ByPartyS ov => wt ov && takes ov KSeats && prev_implies_max ov
+  | PreConv _ e | PostConv e _ | VSys e => wt e
+  | Fixed e n => takes e KSeats && seat_ok e n && wt e
+  | Cond el e _ => seat_ok el VNone && wt el && wt e
+  | ByCons e _ => takes e KSeats && prev_implies_max e && seat_any e && wt e
+  | ByConsD e ae => takes e KSeats && prev_implies_max e && seat_any e && wt e && seat_any ae && wt ae
+  | PreApp e _ => takes_spm e && seat_any e && wt e
+  | PreAppD e ae => takes_spm e && seat_any e && wt e && seat_any ae && wt ae
+  | RemApp e => takes_spm e && seat_any e && wt e
+  | ByParty ov al => seat_any ov && wt ov && takes al KSeats && prev_implies_max al && seat_any al && wt al
+  | ByPartyS ov => wt ov && takes ov KSeats && prev_implies_max ov && seat_any ov
   | Multi rs _ => forallb (fun s => takes_spm s && wt s) rs
-  | TieBr m b => wt m && takes b KSeats && wt b
+  | TieBr m b => wt m && takes b KSeats && seat_any b && wt b
   | PListC p => takes p KSeats && wt p
   | PListO p le _ => takes p KSeats && wt p && is_open_leaf le
+  | Unused rs _ _ => forallb (fun s => takes s KSeats && seat_any s && wt s) rs
+  | AdjLeaf _ e => takes_spm e && seat_any e && wt e
+  | AdjAllow pe e | AdjLevel pe e _ =>
+      takes pe KSeats && takes pe KMax && seat_any pe && wt pe && takes_spm e && seat_any e && wt e
+  | ByConsP e _ pre => takes e KSeats && prev_implies_max e && seat_any e && wt e && wt pre
+  | AdjLevelC ce oe e _ =>
+      takes ce KSeats && takes ce KMax && seat_any ce && wt ce && takes oe KSeats && takes oe KMax && seat_any oe && wt oe &&
+      takes_spm e && seat_any e && wt e
+  | AdjLevelC0 ce e _ => takes ce KSeats && takes ce KMax && seat_any ce && wt ce && takes_spm e && seat_any e && wt e
+  end.
+
+(* the typing of the first version of this model: apportioners and overall evaluators take a seat count *)
+Fixpoint seated (t : ev) : bool :=
+  match t with
+  | Leaf _ _ => true
+  | PreConv _ e | PostConv e _ | VSys e | Fixed e _ | ByCons e _ | PreApp e _ | RemApp e | ByPartyS e | PListC e
+  | AdjLeaf _ e => seated e
+  | Cond a b _ | TieBr a b | PListO a b _ | AdjAllow a b | AdjLevel a b _ | ByConsP a _ b | AdjLevelC0 a b _ => seated a && seated b
+  | AdjLevelC a b c _ => seated a && seated b && seated c
+  | ByConsD e ae | PreAppD e ae => seated e && takes ae KSeats && seated ae
+  | ByParty ov al => takes ov KSeats && seated ov && seated al
+  | Multi rs _ | Unused rs _ _ => forallb seated rs
   end.
 
 Fixpoint faithful (t : ev) : bool :=
   match t with
   | Leaf _ _ => true
-  | PreConv _ e | PostConv e _ | Fixed e _ | RemApp e | PreApp e _ | PListC e => faithful e
+  | PreConv _ e | PostConv e _ | Fixed e _ | RemApp e | PreApp e _ | PListC e | VSys e | AdjLeaf _ e => faithful e
   | Cond el e _ => insp_prev el && insp_seats e && insp_prev e && faithful el && faithful e
   | ByCons e _ => insp_prev e && faithful e
   | ByConsD e ae => insp_prev e && faithful e && faithful ae
   | PreAppD e ae => faithful e && faithful ae
   | ByParty ov al => insp_prev al && faithful ov && faithful al
   | ByPartyS ov => insp_prev ov && faithful ov
-  | Multi rs _ => forallb faithful rs
+  | Multi rs _ | Unused rs _ _ => forallb faithful rs
   | TieBr m b => faithful m && faithful b
   | PListO p le _ => faithful p && faithful le
+  | AdjAllow pe e | AdjLevel pe e _ => faithful pe && faithful e
+  | ByConsP e _ pre => insp_prev e && insp_seats pre && faithful e && faithful pre
+  | AdjLevelC ce oe e _ => faithful ce && faithful oe && faithful e
+  | AdjLevelC0 ce e _ => faithful ce && faithful e
   end.
